@@ -105,6 +105,24 @@ func cmdReplay(args []string) int {
 		_ = os.WriteFile(pf, rp.Plan, 0o644)
 		return cmdExec([]string{"-scenario", rp.Scenario, "-plan", pf, "-trace"})
 	}
+	if rp.History != nil {
+		g, at, _, ok := runHistory(l, *scratch, rp.History.Tier, rp.BatchSeed, rp.History.Indices)
+		if !ok {
+			return fatal2("history replay: the worker process failed")
+		}
+		if g == nil {
+			fmt.Printf("NOT-REPRODUCED property=%s invariant=%s: the run history now passes every invariant\n", rp.Property, rp.Invariant)
+			return 0
+		}
+		fmt.Printf("violation: %s (at run index %d of the replayed history)\n", g, at)
+		if g.Invariant == rp.Invariant && g.Step == rp.Step && at == rp.History.Indices[len(rp.History.Indices)-1] {
+			fmt.Printf("REPRODUCED exactly (same invariant, same step, same run)\n")
+		} else {
+			fmt.Printf("REPRODUCED-DIFFERENTLY recorded=%s@%d\n", rp.Invariant, rp.Step)
+		}
+		fmt.Printf("VIOLATION property=%s replay=%s\n", rp.Property, *file)
+		return 1
+	}
 	o, died, dk, ec, se, st := execChild(l, *scratch, rp.Plan, 600*time.Second)
 	if o.Harness != nil {
 		return fatal2("replay: %s", o.Harness.Msg)
